@@ -311,6 +311,18 @@ def run(chk):
                   "the frame position handed to the mixer is not min((frame_clocks + clk) / clocks_frame, 1.0): %s" % [tm.show(x) if isinstance(x, T) else x for x in poss][:4])
     chk.floor("beeper-rows", 4)
     chk.sample({"samples_per_frame": "sample_rate / 50", "push_sites": sorted(push_fns)})
+    # which bits of a ULA port write reach the beeper: the ULA-write leaf of C07's decode walk (speaker = bit 4, MIC =
+    # bit 3 of the byte written, on every write_io path that reaches the ULA, and every even port does reach it)
+    from . import c07
+    from zx.report import FilteredCheck
+    chk.rule("T-BITS (shared with C07)", "on every write_io path reaching the ULA: speaker level = bit 4, MIC level = bit 3 of the byte written")
+    fc = FilteredCheck(chk, lambda k: (k.startswith("T-BITS/") and (k.endswith("/speaker") or k.endswith("/mic"))) or
+                       k.startswith("T-TABLE/ZXController::write_io"), "c07")
+    c07._KB.clear()
+    c07._KB["prog"], c07._KB["names"] = prog, names
+    for m in names.machine_variants():
+        c07.decode(fc, prog, names, m, "write_io")
+    chk.check(fc.forwarded >= 8, "T-BITS/ZXController::write_io/beeper-paths", "only %d ULA write obligations were judged" % fc.forwarded)
     # the resampler's phase stays in [0,1): a necessary condition of 'every sample is finite and bounded'
     from . import floatinv
     chk.rule("T-INV/float", "interval analysis of AymPrecise::process: phase accumulator in [0,1) at every interpolation use and at return, for every step up to clock/(8000*64)")
